@@ -1917,11 +1917,14 @@ func (r *Resolvable) walkArray(arr *Array, value *astjson.Value) bool {
 		err := r.walkNode(arr.Item, arrayValue)
 		r.popArrayPathElement()
 		if err {
-			if arr.Item.NodeKind() == NodeKindObject && arr.Item.NodeNullable() {
+			// a nullable item absorbs the error: objects and (nested) lists are nulled in place
+			if kind := arr.Item.NodeKind(); (kind == NodeKindObject || kind == NodeKindArray) && arr.Item.NodeNullable() {
 				value.SetArrayItem(r.astjsonArena, i, astjson.NullValue)
 				continue
 			}
-			if arr.Nullable {
+			// a list without a path of its own is the item of an enclosing list,
+			// which nulls it above; it cannot be addressed from its parent here
+			if arr.Nullable && len(arr.Path) > 0 {
 				astjson.SetNull(r.astjsonArena, parent, arr.Path...)
 				return false
 			}
